@@ -2,6 +2,8 @@ import SlogModel.Lemmas.Buffer
 import SlogModel.Lemmas.BufferData
 import SlogModel.Lemmas.BufferSpace
 import SlogModel.Lemmas.BufferMemory
+import SlogModel.Lemmas.BufferSched
+import SlogModel.Lemmas.BufferSchedData
 import SlogModel.Gen.Facts
 
 /-!
@@ -33,6 +35,10 @@ import SlogModel.Gen.Facts
       stays within it.
   * `C03_memory_bound` : at every quiescent point every queued entry is unloaded, so the loaded chunks
       inside the buffer are the window (≤ `memCap`) and at most one in the feeder's hand.
+  * `C03_conserved_every_schedule`, `C03_fifo_every_schedule`, `C03_unchanged_every_schedule` : conservation, FIFO, byte identity and the window bound
+      hold for every interleaving of single feeder steps with the operations, including a start at which
+      chunks are accepted before the feeder has run (`Lemmas/BufferSched.lean`); the quiescing runs that
+      the correspondence compares are among these schedules (`C03_quiescent_runs_are_schedules`).
   The model writes a file atomically with its quota check (one feeder, one `Accept` caller, one
   consumer at a time); the slack "plus the chunks being saved concurrently at shutdown" and the
   loaded chunks in the input channel between quiescent points are outside it (correspondence and
@@ -138,6 +144,46 @@ theorem C03_memory_bound (cfg : Cfg) (disk : List (Nat × Bytes)) (ops : List Op
   have hw := C03_window_bound cfg disk ops s h
   exact ⟨hm.unl, fun hn => by have := hm.quiet.2 hn; omega, hw⟩
 
+/-! ### every schedule of the feeder goroutine (not only quiescent points) -/
+
+/-- **C03 (conservation, every schedule).** With the feeder's steps interleaved arbitrarily with the
+operations — from the very start, before the feeder has moved a single recovered chunk — every accepted
+or recovered chunk is exactly one of queued / in hand / in the window / held / confirmed / dropped / kept. -/
+theorem C03_conserved_every_schedule (cfg : Cfg) (disk : List (Nat × Bytes)) (hd : (disk.map (·.1)).Nodup)
+    (as : List IAct) (s : St) (h : runI (recoverRaw cfg disk) as = some s) (hl : LegalI (recoverRaw cfg disk) as) :
+    (∀ i, ((s.accepted.map (·.1)).count i =
+      (s.inQ.map (·.id)).count i + (handIds s.hand).count i + (s.outW.map (·.id)).count i + (s.held.map (·.id)).count i +
+      s.confirmedG.count i + s.droppedG.count i + s.keptG.count i)) ∧ (s.accepted.map (·.1)).Nodup := by
+  have hi := runI_cinv as _ s h (recoverRaw_cinv cfg disk hd) hl
+  refine ⟨fun i => ?_, hi.nodup⟩
+  have := hi.cons i
+  rw [count_live] at this
+  exact this
+
+/-- **C03 (FIFO and window bound, every schedule).** -/
+theorem C03_fifo_every_schedule (cfg : Cfg) (disk : List (Nat × Bytes)) (as : List IAct) (s : St)
+    (h : runI (recoverRaw cfg disk) as = some s) :
+    (s.taken.map (·.1) ++ s.outW.map (·.id) ++ handIds s.hand ++ s.inQ.map (·.id)).Sublist (s.accepted.map (·.1)) ∧
+    s.outW.length ≤ s.cfg.memCap := by
+  obtain ⟨a, b⟩ := recoverRaw_fifo_win cfg disk
+  exact runI_fifo_win as _ s h a b
+
+/-- **C03 (byte-for-byte unchanged, every schedule).** -/
+theorem C03_unchanged_every_schedule (cfg : Cfg) (disk : List (Nat × Bytes)) (hd : (disk.map (·.1)).Nodup)
+    (as : List IAct) (s : St) (h : runI (recoverRaw cfg disk) as = some s) (hl : LegalI (recoverRaw cfg disk) as) :
+    (∀ p ∈ s.taken, p ∈ s.accepted) ∧ (∀ p ∈ s.disk, p.1 ∈ s.accepted.map (·.1) → p ∈ s.accepted) := by
+  have hd' := runI_dinv as _ s h (recoverRaw_cinv cfg disk hd) hl (recoverRaw_dinv cfg disk hd)
+  exact ⟨hd'.tk, hd'.disk⟩
+
+/-- the runs compared with the real buffer at quiescent points are among these schedules -/
+theorem C03_quiescent_runs_are_schedules (cfg : Cfg) (disk : List (Nat × Bytes)) (ops : List Op) (s : St)
+    (h : run (recover cfg disk) ops = some s) : ∃ as, runI (recoverRaw cfg disk) as = some s := by
+  obtain ⟨as, has⟩ := run_is_schedule ops _ s h
+  obtain ⟨k, hk⟩ := settle_feeds (2 * (recoverRaw cfg disk).inQ.length + 2) (recoverRaw cfg disk)
+  refine ⟨List.replicate k IAct.feed ++ as, ?_⟩
+  rw [runI_append, hk]
+  exact has
+
 /-- **C03 (recovered first).** The acceptance order of a generation starts with recovered files — a
 subsequence, in name order, of the files found — before anything accepted later. -/
 theorem C03_recovered_first (cfg : Cfg) (disk : List (Nat × Bytes)) :
@@ -176,6 +222,11 @@ def demoCfg : Cfg := { memCap := 2, queueCap := 1, maxBytes := 3, hasDir := true
 
 example : (run { cfg := demoCfg } demoOps).map (fun s => (s.confirmedG, s.droppedG, s.keptG, s.disk.map (·.1), s.c.gBytes)) =
     some ([1], [4], [3, 5, 2], [2, 3, 5], 3) := by decide
+
+/-- a schedule that is not a quiescing run: two accepts before the feeder moves anything (both stay loaded in the queue) -/
+example : ((runI { cfg := { memCap := 2, queueCap := 5, maxBytes := 100, hasDir := true } }
+    [.op (.accept 1 [1]), .op (.accept 2 [2]), .feed, .feed, .op .take]).map
+    (fun s => (s.taken.map (·.1), s.inQ.map (·.id)))) = some ([1], [2]) := by decide
 
 /-- the demo run ends with 3 bytes of files, exactly the limit: the bound is tight -/
 example : (run { cfg := demoCfg } demoOps).map (fun s => diskBytes s.disk) = some 3 := by decide
